@@ -26,7 +26,7 @@ def run(tier, replay=None):
     if replay:
         import os, json
         info = json.load(open(os.path.join(replay, "info.json")))
-        if "group" in info:
+        if "group" in info or info.get("record", {}).get("op") in ("FatalFirst", "Requests") or "kept" in info.get("record", {}):
             return transport.replay(v, replay)
         return api_replay(PROP, "c06", "Trace_Api", "Trace_Api.cfg", tier, replay, key, env)
     v.assumptions = [
